@@ -20,6 +20,8 @@ def cases(tier):
         cs.append((play.case_bmc, f'H2 BMC first {n} plays, declarer {d}', dict(props=PROPS, n=n, declarer=d)))
     for when in ('before', 'after'):
         cs.append((play.case_two_boards, f'H3 a second board constructed {when} the lead to a first one is a fresh board', dict(props=PROPS, when=when)))
+    for d in ((1, 2, 3, 4) if tier == 'thorough' else ((2,) if 'C04' in PROPS else (3,))):
+        cs.append((play.case_clone, f'H3c a deep copy of a board that has been led to is a board of its own, declarer {d}', dict(props=PROPS, declarer=d)))
     return cs
 
 
